@@ -36,6 +36,9 @@ type event struct {
 
 var seqCounter int64
 
+// hungOnce: a scenario hung; later cases are not run (each would cost the full watchdog time)
+var hungOnce bool // hungOnce
+
 type recorder struct {
 	mu  sync.Mutex
 	evs []event
@@ -123,6 +126,9 @@ func gen(r *vu.Rng, i int) []string {
 // mode 1: the listener is closed at a random moment by another goroutine; mode 0: after all
 // acceptors are done, and after checking that all n slots are free again.
 func runListen(n, A, K, mode int, s uint64, stats map[string]int) ([]event, [][2]string) {
+	if hungOnce {
+		return nil, nil
+	}
 	fails := &failures{}
 	inner := &memListener{rec: &recorder{}, fails: fails, limit: int32(n)}
 	l := netutil.LimitListener(inner, n)
@@ -270,6 +276,11 @@ func exec(ops []string, o *vu.Out) {
 		}
 		stats := map[string]int{}
 		evs, fails := runListen(n, A, K, mode, s, stats)
+		for _, f := range fails {
+			if f[0] == "hang" {
+				hungOnce = true
+			}
+		}
 		o.Op(op, "ok")
 		for _, e := range evs {
 			o.Op(e.s, "ok")
